@@ -16,7 +16,7 @@ use meshless_voronoi::verif_hooks as hooks;
 use proptest::prelude::*;
 use proptest::strategy::BoxedStrategy;
 
-const FAMS: &[(u32, Fam)] = &[(4, Fam::U), (3, Fam::K), (2, Fam::L0), (2, Fam::L1), (1, Fam::Lp), (1, Fam::B), (1, Fam::D), (1, Fam::E), (1, Fam::N), (1, Fam::S), (1, Fam::P)];
+const FAMS: &[(u32, Fam)] = &[(4, Fam::U), (3, Fam::K), (2, Fam::L0), (2, Fam::L1), (1, Fam::Lp), (1, Fam::Lb), (1, Fam::B), (1, Fam::D), (1, Fam::E), (1, Fam::N), (1, Fam::S), (1, Fam::P)];
 
 fn strategy(tier: Tier) -> BoxedStrategy<Case> {
     let base = gen::case_strategy(GenOpts { max_n: tier.pick(2500, 10_000), big_n_weight: 6, fams: FAMS.to_vec(), max_offset_log2: 30, ..GenOpts::default() });
